@@ -9,7 +9,7 @@ EXPLANATION = ("B1 identifier octet - the writer composes "
                "long-form marker is count | 0x80 against len - 128, only definite forms are emitted; B3 BOOLEAN emits {0xFF} / {0x00}, "
                "NULL emits empty content, every into_structure passes id / class through and keeps the children in order; B4 the TLV "
                "parser returns the slice after the announced length as remainder in both the primitive and the constructed arm, and the "
-               "encoder writes type, then the length of exactly the content it writes next; B2m/B5 the two arithmetic functions - "
+               "encoder writes type, then the length of exactly the content it writes next; B7 the TLV parser's children loop ends only when the content is used up, keeps every child and continues with its remainder, and every error path is the failure of one of its primitives or the nesting bound; B2m/B5 the two arithmetic functions - "
                "write_length and the INTEGER/ENUMERATED content encoder - are functions of one integer whose every branch condition is a "
                "comparison of the (possibly complemented) value shifted right by a constant with a constant (checked); such conditions "
                "can change only at finitely many change points, so the path taken and the octets emitted are decided exactly by "
@@ -49,6 +49,102 @@ def check_parse_uint(ctx, f, R):
     ctx.add(R + '.unsigned-reader-big-endian', 'parse_uint', loc(B.root), not wrong,
             'evaluated exactly on %d literal octet strings (lengths 0..12): (octets, decoded, big-endian value) differ at %s' % (len(set(vecs)), wrong[:4]))
 
+
+def tlv_body(f):
+    for p in sorted(q for q in f.hir if q.startswith('lber::parse::parse_tag')):
+        if any(n['k'] == 'Match' and 'TagStructure' in (n['scrut'].get('ty') or '') for n, c in walk(f.hir[p]['body'])):
+            return p
+    return None
+
+def says_empty(atom, truth):
+    """The atom, with this truth value, says that a slice / cursor has no octets left."""
+    def is_len(t):
+        return t[0] == 'call' and t[1].rsplit('::', 1)[-1] in ('input_len', 'len', 'remaining')
+    if atom[0] == 'bin' and len(atom) == 4:
+        op, a, b = atom[1], atom[2], atom[3]
+        if is_len(b) and a == ('lit', 0):
+            a, b, op = b, a, {'Gt': 'Lt', 'Lt': 'Gt', 'Ge': 'Le', 'Le': 'Ge'}.get(op, op)
+        if is_len(a) and b == ('lit', 0):
+            return (op in ('Gt', 'Ne') and truth is False) or (op in ('Eq', 'Le') and truth is True)
+        if is_len(a) and b == ('lit', 1):
+            return (op == 'Ge' and truth is False) or (op == 'Lt' and truth is True)
+    if atom[0] == 'call' and atom[1].rsplit('::', 1)[-1] == 'is_empty':
+        return truth is True
+    if atom[0] == 'not':
+        return says_empty(atom[1], not truth)
+    return False
+
+def check_tlv_parser(ctx, f, R):
+    """The TLV parser (the function that matches on the primitive / constructed bit), on its enumerated paths with the children loop
+    evaluated as one generic iteration:
+    children-until-content-exhausted - a constructed element is complete only when its content has no octets left: every success
+      path of the constructed arm has left the children loop because the content cursor was empty (never for another reason);
+    child-kept / cursor-advances - one iteration parses one child from the cursor, appends exactly that child and continues with
+      exactly its remainder;
+    no-extra-rejection - every error path is the failure of one of the parser's own primitives (header, length, take, the recursive
+      call) or the nesting bound; in particular nothing is rejected (instead of asking for more input) for being short."""
+    body = tlv_body(f)
+    if body is None:
+        ctx.fail('anchor-missing', 'TLV parser body', '', 'no function matching on TagStructure')
+        return
+    B = hirq.Body(f, f.hir[body])
+    ctx.analysed['bodies'].add(body)
+    outs = absx.Interp(f, B, unroll=1, result_combinators=True, generic_loops=True).run()
+    params = [d for b, d in B.defs.items() if d['kind'] == 'param']
+    rec = lambda t: t[0] == 'call' and t[1] == body
+    # the depth parameter by role: the parameter the recursive call passes on incremented
+    depth = set()
+    for o in outs:
+        for e in o.st.ev:
+            if e[0] == 'call' and e[1] == body:
+                for a in e[2]:
+                    if a[0] == 'bin' and a[1] == 'Add' and a[2][0] == 'param':
+                        depth.add(a[2])
+    def bound_exceeded(o):
+        for a, t in o.st.pc:
+            if a[0] == 'bin' and len(a) == 4:
+                op, x, y = a[1], a[2], a[3]
+                if y in depth and x[0] in ('lit', 'const'):
+                    x, y, op = y, x, {'Gt': 'Lt', 'Lt': 'Gt', 'Ge': 'Le', 'Le': 'Ge'}.get(op, op)
+                if x in depth and y[0] in ('lit', 'const'):
+                    if (op in ('Gt', 'Ge') and t) or (op in ('Lt', 'Le') and not t):
+                        return True
+        return False
+    n_ok = n_err = n_it = 0
+    for o in outs:
+        prim = sem.variant_truth(o.st.pc, lambda v: True, 'TagStructure::Primitive', ['TagStructure::Primitive', 'TagStructure::Constructed'])
+        if o.kind in ('val', 'ret') and o.val[0] == 'ctor' and o.val[1] == 'Ok':
+            if prim is False:
+                n_ok += 1
+                ok = any(says_empty(a, t) for a, t in o.st.pc)
+                ctx.add(R + '.children-until-content-exhausted', 'constructed|%d conditions' % len(o.st.pc), loc(B.root), ok,
+                        'a constructed element is returned on a path that did not leave the children loop because the content was used up (%s): '
+                        'the rest of its content - one or more child elements - is silently dropped' % ', '.join(('' if t else '!') + absx.fmt(a)[:60] for a, t in o.st.pc[-2:]))
+        elif o.kind == 'loop':
+            n_it += 1
+            rcalls = [e for e in o.st.ev if e[0] == 'call' and e[1] == body]
+            pushes = [e for e in o.st.ev if e[0] == 'call' and e[1].rsplit('::', 1)[-1] == 'push']
+            okp = okc = False
+            if len(rcalls) == 1:
+                r = ('call', body, rcalls[0][2], rcalls[0][3].get('id'))
+                child, rest = ('field', ('variant', r, 'Ok', 0), '1'), ('field', ('variant', r, 'Ok', 0), '0')
+                okp = len(pushes) == 1 and pushes[0][2][1] == child
+                cur = rcalls[0][2][0]
+                # the cursor: the loop-carried local the recursive call read from; at the back edge it holds the call's remainder
+                carried = [e for e in o.st.ev if e[0] == 'loop-carried' and e[2] == cur]
+                okc = bool(carried) and o.st.env.get(carried[0][1]) == rest
+            ctx.add(R + '.child-kept', 'iteration', loc(B.root), okp, 'one iteration of the children loop does not append exactly the child it parsed (children lost, duplicated or replaced)')
+            ctx.add(R + '.cursor-advances-to-remainder', 'iteration', loc(B.root), okc, 'after one iteration the content cursor is not the remainder returned by the child\'s parse')
+        elif o.kind in ('ret', 'val') and sem.is_err_result(o.val):
+            n_err += 1
+            caused = sem.failed(o, lambda v: v[0] == 'call') or bound_exceeded(o)
+            ctx.add(R + '.no-extra-rejection', 'error path|%s' % (absx.fmt(o.val)[:40]), loc(B.root), caused,
+                    'the TLV parser rejects its input on a path where none of its primitives failed and the nesting bound was not exceeded (%s): '
+                    'well-formed input is refused - or, at the top level, a short read becomes a decoding error instead of a request for more input' %
+                    ', '.join(('' if t else '!') + absx.fmt(a)[:60] for a, t in o.st.pc[-2:]))
+    ctx.floor(R, 'success paths of the constructed arm', n_ok, 1)
+    ctx.floor(R, 'generic iterations of the children loop', n_it, 1)
+    ctx.floor(R, 'error paths of the TLV parser', n_err, 4)
 
 def run(ctx):
     f = ctx.facts
@@ -363,6 +459,7 @@ def run(ctx):
             okh = all(fl.get(k, ('unk',))[0] == 'field' for k in ('class', 'id'))
             ctx.add('B4.header-fields', 'primitive=%s' % prim, loc(B.root), okh, 'class/id of the result are not the parsed header fields')
         ctx.add('B4.both-arms', 'primitive+constructed', loc(B.root), seen >= {True, False}, 'no success path for both structures')
+    check_tlv_parser(ctx, f, 'B7')
     E = hirq.Body(f, f.body('lber::write::encode_inner'))
     ctx.analysed['bodies'].add(E.path)
     for o in absx.Interp(f, E, unroll=1).run():
